@@ -4,6 +4,7 @@ import (
 	"encoding/json"
 	"flag"
 	"fmt"
+	"hash/fnv"
 	"math/rand"
 	"os"
 	"path/filepath"
@@ -33,7 +34,10 @@ func TestDrive(t *testing.T) {
 		tw := NewTraceWriter(filepath.Join(*fOut, fmt.Sprintf("%s-%d-%d.ndjson", *fFamily, *fSeed, *fShard)))
 		var scheds []Schedule
 		for i := 0; i < *fN; i++ {
-			seed := *fSeed*1_000_003 + int64(*fShard)*10_007 + int64(i)
+			// the stream depends on the family too: families whose generators start alike must not replay each other's opening
+			fh := fnv.New32a()
+			fh.Write([]byte(*fFamily))
+			seed := *fSeed*1_000_003 + int64(*fShard)*10_007 + int64(i) + int64(fh.Sum32()%99_991)*1_000_000_007
 			r := rand.New(rand.NewSource(seed))
 			big := *fBig > 0 && i%*fBig == *fBig-1
 			// two of three rewards histories stay clear of the root causes of the known reward findings (slashes under
